@@ -73,15 +73,43 @@ Proof.
     destruct (tbl_get p posts) as [h|]; [destruct (accept fl h)|]; reflexivity.
 Qed.
 
-Definition once_statement (fl : rflags) (behav : nat -> params -> option body)
+(* no failure of the handler code is swallowed by the wrapper on these parameters *)
+Definition noswallow (fl : rflags) (behav : nat -> params -> outcome) (p : params) : Prop :=
+  forall b, swallowed fl (behav b p) = false.
+
+Lemma noswallow_impl fl behav p :
+  rf_fb_klong fl = false -> rf_fb_other fl = false -> (forall b, behav b p <> OFailKey) -> noswallow fl behav p.
+Proof.
+  intros Hk Ho Hn b. specialize (Hn b). unfold swallowed. destruct (behav b p); auto; congruence.
+Qed.
+
+Definition result_of (o : outcome) : option body := match o with OOk t => Some t | _ => None end.
+
+(* exactly the current definition runs, exactly once; the captured old function is never run while the symbol is bound *)
+Lemma invoke_once fl behav e h p : noswallow fl behav p ->
+  invoke fl behav e h p =
+  match the_code e h with
+  | Some b => (result_of (behav b p), [(b, p)])
+  | None => (None, [])
+  end.
+Proof.
+  intros Hn. unfold invoke, the_code.
+  destruct (current e h) as [[a' b']|].
+  - destruct (Z.eqb a' 1); [|reflexivity].
+    pose proof (Hn b') as Hs. destruct (behav b' p); simpl in *; try rewrite Hs; reflexivity.
+  - unfold run_orig. destruct h as [a sym b| |]; try reflexivity.
+    destruct (Z.eqb a 1); [|reflexivity]. destruct (behav b p); reflexivity.
+Qed.
+
+Definition once_statement (fl : rflags) (behav : nat -> params -> outcome)
   (gets posts : list (str * hval)) (e : env) (q : request) : Prop :=
   let resp := fst (serve fl behav (register fl gets posts) e q) in
   let log := snd (serve fl behav (register fl gets posts) e q) in
   match spec_route fl gets posts (q_meth q) (q_path q) with
   | Some h =>
-      match resolve e h with
+      match the_code e h with
       | Some b => log = [(b, q_params q)] /\
-                  resp = match behav b (q_params q) with Some t => mkResp 200 t | None => failure fl end
+                  resp = match behav b (q_params q) with OOk t => mkResp 200 t | _ => failure fl end
       | None => log = [] /\ resp = failure fl
       end
   | None => log = [] /\ (status resp = 404 \/ status resp = 405)
@@ -89,37 +117,41 @@ Definition once_statement (fl : rflags) (behav : nat -> params -> option body)
 
 Theorem serve_once fl behav gets posts e q :
   rf_capture fl = true -> NoDup (map fst gets) -> NoDup (map fst posts) ->
+  noswallow fl behav (q_params q) ->
   once_statement fl behav gets posts e q.
 Proof.
-  intros Hc Ng Np. unfold once_statement, serve.
+  intros Hc Ng Np Hn. unfold once_statement, serve.
   rewrite (find_registered fl gets posts (q_meth q) (q_path q) Hc Ng Np).
   destruct (spec_route fl gets posts (q_meth q) (q_path q)) as [h|]; simpl.
-  - destruct (resolve e h) as [b|]; simpl; [|auto].
+  - rewrite (invoke_once fl behav e h (q_params q) Hn).
+    destruct (the_code e h) as [b|]; simpl; [|auto].
     destruct (behav b (q_params q)); simpl; auto.
   - destruct (existsb _ _); simpl; auto.
 Qed.
 
 Lemma serve_log fl behav gets posts e q :
   rf_capture fl = true -> NoDup (map fst gets) -> NoDup (map fst posts) ->
+  noswallow fl behav (q_params q) ->
   snd (serve fl behav (register fl gets posts) e q) = spec_entry fl gets posts e q.
 Proof.
-  intros Hc Ng Np. pose proof (serve_once fl behav gets posts e q Hc Ng Np) as H.
+  intros Hc Ng Np Hn. pose proof (serve_once fl behav gets posts e q Hc Ng Np Hn) as H.
   unfold once_statement in H. unfold spec_entry.
-  destruct (spec_route fl gets posts (q_meth q) (q_path q)) as [h|]; [destruct (resolve e h)|]; tauto.
+  destruct (spec_route fl gets posts (q_meth q) (q_path q)) as [h|]; [destruct (the_code e h)|]; tauto.
 Qed.
 
 Theorem log_once fl behav gets posts : rf_capture fl = true -> NoDup (map fst gets) -> NoDup (map fst posts) ->
+  (forall p, noswallow fl behav p) ->
   forall evs e, snd (run_events fl behav (register fl gets posts) e evs) = spec_log fl gets posts e evs.
 Proof.
-  intros Hc Ng Np. induction evs as [|[q|s v] evs IH]; intros e; simpl; [reflexivity| |apply IH].
-  rewrite <- (serve_log fl behav gets posts e q Hc Ng Np), <- (IH e).
+  intros Hc Ng Np Hn. induction evs as [|[q|s v] evs IH]; intros e; simpl; [reflexivity| |apply IH].
+  rewrite <- (serve_log fl behav gets posts e q Hc Ng Np (Hn _)), <- (IH e).
   destruct (serve fl behav (register fl gets posts) e q) as [r l].
   destruct (run_events fl behav (register fl gets posts) e evs) as [rs ls]. reflexivity.
 Qed.
 
 Lemma spec_entry_le1 fl gets posts e q : (length (spec_entry fl gets posts e q) <= 1)%nat.
 Proof.
-  unfold spec_entry. destruct (spec_route _ _ _ _ _) as [h|]; [destruct (resolve e h)|]; simpl; lia.
+  unfold spec_entry. destruct (spec_route _ _ _ _ _) as [h|]; [destruct (the_code e h)|]; simpl; lia.
 Qed.
 
 (* requests do not change what later requests get: in particular a failing one *)
